@@ -651,3 +651,533 @@ pub fn run_c08(case: &C08Case, info: &mut CaseInfo) -> Result<(), Fail> {
 
     Ok(())
 }
+
+// ---------------------------------------------------------------------------------------------
+// C07
+// ---------------------------------------------------------------------------------------------
+
+#[derive(Serialize, Deserialize, Clone, Copy, Debug, PartialEq, Eq, Hash)]
+pub enum Variant {
+    Plain,
+    SyncSystemTime,
+    Dc,
+}
+
+#[derive(Serialize, Deserialize, Clone, Debug, PartialEq, Eq, Hash)]
+pub struct C07Case {
+    /// Per device: input bytes, output bytes, DC capable
+    pub devices: Vec<(u16, u16, bool)>,
+    /// Frame size (PduStorage DATA) of the MainDevice that runs the cycle
+    pub frame: u16,
+    pub variant: Variant,
+    pub seed: u64,
+}
+
+fn dev_size() -> impl Strategy<Value = u16> {
+    prop_oneof![2 => Just(0u16), 4 => 1u16..=16, 3 => 17u16..=120, 1 => 121u16..=700]
+}
+
+pub fn c07_case() -> impl Strategy<Value = C07Case> {
+    (
+        prop::collection::vec((dev_size(), dev_size(), prop::bool::weighted(0.6)), 0..=8),
+        prop_oneof![Just(Variant::Plain), Just(Variant::SyncSystemTime), Just(Variant::Dc)],
+        any::<u64>(),
+        0usize..1000,
+        prop::bool::weighted(0.5),
+        0usize..3,
+        -1i32..=1,
+    )
+        .prop_map(|(mut devices, variant, seed, fi, boundary, k, delta)| {
+            // keep the image within MAX_PDI = 2048
+            let mut total = 0usize;
+
+            for d in &mut devices {
+                if total + usize::from(d.0) + usize::from(d.1) > 2048 {
+                    d.0 = 0;
+                    d.1 = 0;
+                }
+
+                total += usize::from(d.0) + usize::from(d.1);
+            }
+
+            let min = match variant {
+                Variant::Plain => 30,
+                // init runs on the same MainDevice
+                Variant::SyncSystemTime => 64,
+                Variant::Dc => 50,
+            };
+
+            // Every frame size exists for single-slot storages, which is all one cycle needs.
+            // Either any size (small ones more often), or one that puts the end of the image
+            // (after k state checks / the clock datagram) on the frame boundary +-1
+            let frame = if boundary && total > 0 {
+                let dc = if variant == Variant::Plain { 0 } else { 20 };
+                let want = (16 + dc + 12 + total + 14 * k) as i32 + delta;
+
+                want.clamp(min as i32, 1514) as usize
+            } else if fi < 500 {
+                min + fi * (160 - min) / 500
+            } else {
+                160 + (fi - 500) * (1514 - 160) / 499
+            };
+
+            C07Case { devices, frame: frame as u16, variant, seed }
+        })
+}
+
+pub const C07_RULE: &str = "case = (0..8 devices with 0..700 input and output bytes each (image 0..2048 bytes, every split incl. all-in, all-out, empty), some DC capable; cycle variant plain | sync system time | DC; every frame size 30..1514 (50.. for DC, 64.. when init shares the MainDevice), half of the cases with a size that puts the image end on the frame boundary +-1); the group is produced by real init + into_op, the cycle is run by a MainDevice with the generated frame size; non-trivial = the cycle needs >= 2 frames or a process data datagram ends within 14 bytes of the frame end; distinct by hash of the case";
+
+fn c07_knobs(i: usize, d: &(u16, u16, bool), seed: u64) -> DevKnobs {
+    let entries = |bytes: u16| -> Vec<Vec<Vec<u8>>> {
+        if bytes == 0 {
+            return vec![];
+        }
+
+        let mut e: Vec<u8> = vec![64; usize::from(bytes / 8)];
+
+        e.extend(std::iter::repeat_n(8u8, usize::from(bytes % 8)));
+
+        // PDOs of at most 100 entries
+        vec![e.chunks(100).map(|c| c.to_vec()).collect()]
+    };
+
+    DevKnobs {
+        name: format!("D{i}").into_bytes(),
+        long_name: b"Device".to_vec(),
+        vendor: 1,
+        product: 2 + i as u32,
+        revision: 3,
+        serial: 4,
+        alias: 0,
+        stale_addr: 0,
+        mailbox: false,
+        coe: false,
+        mbx_size: 32,
+        out_sms: entries(d.1),
+        in_sms: entries(d.0),
+        fmmu_ex: false,
+        dc: if d.2 { crate::simnet::DcKind::Bits64 } else { crate::simnet::DcKind::None },
+        chunk8: true,
+        sii_busy_polls: 0,
+        strict: false,
+        unknown_cats: 0,
+        input_seed: seed ^ i as u64,
+        clock_offset: seed.rotate_left(i as u32 * 7) >> 20,
+        link_delay: 100,
+        down_ports: 1,
+        complete_access: false,
+        oversampling: vec![],
+        noncontig: false,
+        unnamed: false,
+    }
+}
+
+type G7 = SubDeviceGroup<8, 2048>;
+
+#[derive(Debug, Clone)]
+struct CycleObs {
+    res: Result<(u16, Vec<u8>, Option<u64>), String>,
+    tx: Vec<Vec<u8>>,
+    rx: Vec<Vec<u8>>,
+    inputs_after: Vec<Vec<u8>>,
+    outputs_after: Vec<Vec<u8>>,
+    served_before: Vec<usize>,
+    served_after: Vec<usize>,
+}
+
+fn state_nibble(s: ethercrab::SubDeviceState) -> u8 {
+    use ethercrab::SubDeviceState as S;
+
+    match s {
+        S::None => 0,
+        S::Init => 1,
+        S::PreOp => 2,
+        S::Bootstrap => 3,
+        S::SafeOp => 4,
+        S::Op => 8,
+        S::Other(n) => n,
+    }
+}
+
+async fn c07_cycle<S: HasPdi, DC>(
+    net: &NetHandle,
+    case: &C07Case,
+    g: &SubDeviceGroup<8, 2048, ethercrab::DefaultLock, S, DC>,
+    md: &MainDevice<'_>,
+    run: impl AsyncFnOnce() -> Result<(u16, Vec<u8>, Option<u64>), Error>,
+) -> CycleObs {
+    for (j, sd) in g.iter(md).enumerate() {
+        let mut o = sd.outputs_raw_mut();
+        let pat = out_pattern(case.seed, j, o.len());
+
+        o.copy_from_slice(&pat);
+    }
+
+    let served_before;
+
+    {
+        let mut n = net.borrow_mut();
+
+        for (i, d) in n.devices.iter_mut().enumerate() {
+            let ins: Vec<(usize, u16, u16, bool)> = d.expected_pd_sms().into_iter().filter(|s| !s.3).collect();
+            let total: usize = ins.iter().map(|s| usize::from(s.2)).sum();
+            let pat = in_pattern(case.seed, i, total);
+            let mut at = 0;
+
+            for (_, start, len, _) in ins {
+                let a = usize::from(start);
+                let l = usize::from(len);
+
+                d.mem[a..a + l].copy_from_slice(&pat[at..at + l]);
+                at += l;
+            }
+        }
+
+        served_before = n.devices.iter().map(|d| d.stats.al_served.len()).collect();
+        n.log_frames = true;
+        n.stats.tx_log.clear();
+        n.stats.rx_log.clear();
+    }
+
+    let res = run().await.map_err(|e| format!("{e:?}"));
+
+    let mut n = net.borrow_mut();
+
+    n.log_frames = false;
+
+    CycleObs {
+        res,
+        tx: std::mem::take(&mut n.stats.tx_log),
+        rx: std::mem::take(&mut n.stats.rx_log),
+        inputs_after: g.iter(md).map(|sd| sd.inputs_raw().to_vec()).collect(),
+        outputs_after: g.iter(md).map(|sd| sd.outputs_raw().to_vec()).collect(),
+        served_before,
+        served_after: n.devices.iter().map(|d| d.stats.al_served.len()).collect(),
+    }
+}
+
+pub fn run_c07(case: &C07Case, info: &mut CaseInfo) -> Result<(), Fail> {
+    let n = case.devices.len();
+
+    if std::env::var_os("VERIF_DEBUG").is_some() {
+        eprintln!("{case:?}");
+    }
+
+    let knobs: Vec<DevKnobs> = case.devices.iter().enumerate().map(|(i, d)| c07_knobs(i, d, case.seed)).collect();
+    let spec: NetSpec = simgen::build_net(&knobs, &[], &[]);
+    let net: NetHandle = Rc::new(RefCell::new(Network::new(&spec)));
+    let frame = usize::from(case.frame);
+    let variant = case.variant;
+    let any_dc = case.devices.iter().any(|d| d.2);
+
+    let dc_conf = ethercrab::subdevice_group::DcConfiguration {
+        start_delay: std::time::Duration::from_millis(1),
+        sync0_period: std::time::Duration::from_micros(1000),
+        sync0_shift: std::time::Duration::from_micros(250),
+    };
+
+    // Phase 1: init and transitions with a comfortable frame size (the same MainDevice runs the
+    // cycle in the sync-system-time variant, because the reference clock address lives in it)
+    let cfg1 = SimConfig { frame_size: if variant == Variant::SyncSystemTime { frame } else { 1100 }, slots: if variant == Variant::SyncSystemTime { 1 } else { 16 }, ..Default::default() };
+    let c = case.clone();
+    let net2 = net.clone();
+
+    enum Built {
+        Plain(SubDeviceGroup<8, 2048, ethercrab::DefaultLock, ethercrab::subdevice_group::Op>),
+        Dc(SubDeviceGroup<8, 2048, ethercrab::DefaultLock, ethercrab::subdevice_group::Op, ethercrab::subdevice_group::HasDc>),
+        Done(CycleObs),
+    }
+
+    let built: Result<Built, Error> = simexec::run(&net, &cfg1, |md| {
+        Box::pin(async move {
+            let g: G7 = md.init_single_group::<8, 2048>(|| 0).await?;
+
+            match variant {
+                Variant::Plain => Ok(Built::Plain(g.into_op(md).await?)),
+                Variant::Dc => {
+                    let g = g.into_pre_op_pdi(md).await?;
+
+                    match g.configure_dc_sync(md, dc_conf).await {
+                        Ok(g) => Ok(Built::Dc(g.into_op(md).await?)),
+                        Err(e) => Err(e),
+                    }
+                }
+                Variant::SyncSystemTime => {
+                    let g = g.into_op(md).await?;
+                    let obs = c07_cycle(&net2, &c, &g, md, async || {
+                        let r = g.tx_rx_sync_system_time(md).await?;
+
+                        Ok((r.working_counter, r.subdevice_states.iter().map(|s| state_nibble(*s)).collect(), r.extra))
+                    })
+                    .await;
+
+                    Ok(Built::Done(obs))
+                }
+            }
+        })
+    })
+    .map_err(|e| sim_fail("C07", e))?;
+
+    let built = match built {
+        Ok(b) => b,
+        Err(Error::DistributedClock(_)) if variant == Variant::Dc && !any_dc => {
+            info.label("dc-variant-without-dc-device");
+
+            return Ok(());
+        }
+        Err(e) => fail!("C07|harness-init", "bringing {n} healthy devices to OP failed: {e:?}"),
+    };
+
+    // Phase 2: a second MainDevice with the generated frame size runs the cycle
+    let cfg2 = SimConfig { frame_size: frame, slots: 1, keep_clock: true, ..Default::default() };
+    let c = case.clone();
+    let net2 = net.clone();
+
+    let obs: CycleObs = match built {
+        Built::Done(o) => o,
+        Built::Plain(g) => simexec::run(&net, &cfg2, |md| {
+            Box::pin(async move {
+                c07_cycle(&net2, &c, &g, md, async || {
+                    let r = g.tx_rx(md).await?;
+
+                    Ok((r.working_counter, r.subdevice_states.iter().map(|s| state_nibble(*s)).collect(), None))
+                })
+                .await
+            })
+        })
+        .map_err(|e| sim_fail("C07", e))?,
+        Built::Dc(g) => simexec::run(&net, &cfg2, |md| {
+            Box::pin(async move {
+                c07_cycle(&net2, &c, &g, md, async || {
+                    let r = g.tx_rx_dc(md).await?;
+
+                    Ok((r.working_counter, r.subdevice_states.iter().map(|s| state_nibble(*s)).collect(), Some(r.extra.dc_system_time)))
+                })
+                .await
+            })
+        })
+        .map_err(|e| sim_fail("C07", e))?,
+    };
+
+    let net = net.borrow();
+    let in_total: usize = case.devices.iter().map(|d| usize::from(d.0)).sum();
+    let out_total: usize = case.devices.iter().map(|d| usize::from(d.1)).sum();
+    let total = in_total + out_total;
+    // the sync-system-time variant only sends the clock datagram when a reference clock exists
+    let with_clock = match variant {
+        Variant::Plain => false,
+        Variant::SyncSystemTime => any_dc,
+        Variant::Dc => true,
+    };
+
+    info.label(format!("{variant:?}"));
+    info.count("image-bytes", total as u64);
+    info.label(match (in_total, out_total) {
+        (0, 0) => "image-empty",
+        (_, 0) => "image-inputs-only",
+        (0, _) => "image-outputs-only",
+        _ => "image-mixed",
+    });
+
+    let (wkc, states, time) = match &obs.res {
+        Ok(r) => r.clone(),
+        Err(e) => fail!("C07|cycle-failed", "the cycle on a healthy network failed ({variant:?}, frame size {frame}, image {total} bytes, {n} devices): {e}"),
+    };
+
+    // ---- the frames -----------------------------------------------------------------------
+    let cap = frame - 16;
+    let mut next_addr: u64 = 0;
+    let mut lrw_wkc_sum: u32 = 0;
+    let mut clock_seen = 0;
+    let mut clock_answer: Option<u64> = None;
+    let mut returned: Vec<u8> = Vec::new();
+    let mut near_boundary = false;
+
+    for (fi, f) in obs.tx.iter().enumerate() {
+        ensure!(f.len() <= frame, "C07|frame-too-long", "frame {fi} of the cycle has {} bytes, the configured frame size is {frame}", f.len());
+
+        let d = wire::decode_frame(f).map_err(|e| Fail::new("C04|malformed-frame-on-wire", e))?;
+        let r = wire::decode_frame(&obs.rx[fi]).map_err(|e| Fail::new("harness|bad-response", e))?;
+        let mut used = 0usize;
+
+        for (di, dg) in d.datagrams.iter().enumerate() {
+            used += 12 + usize::from(dg.len);
+
+            match dg.code {
+                wire::LRW | wire::LRD | wire::LWR => {
+                    ensure!(dg.code == wire::LRW, "C07|wrong-command", "process data is exchanged with command {:#x}", dg.code);
+                    ensure!(
+                        u64::from(dg.logical()) == next_addr,
+                        "C07|tiling",
+                        "frame {fi}: process data datagram covers logical {:#x}..{:#x}, expected it to start at {next_addr:#x} (image {total} bytes, frame size {frame})",
+                        dg.logical(),
+                        u64::from(dg.logical()) + u64::from(dg.len)
+                    );
+                    ensure!(dg.len > 0, "C07|empty-datagram", "frame {fi}: process data datagram of length 0");
+
+                    next_addr += u64::from(dg.len);
+                    lrw_wkc_sum += u32::from(r.datagrams[di].wkc);
+                    returned.extend_from_slice(&r.datagrams[di].data);
+
+                    if cap - used < 14 {
+                        near_boundary = true;
+                    }
+                }
+                wire::FRMW => {
+                    clock_seen += 1;
+
+                    ensure!(fi == 0 && di == 0, "C07|clock-datagram-position", "a time distribution datagram is datagram {di} of frame {fi} of the cycle");
+                    ensure!(dg.ado() == 0x0910 && dg.len == 8, "C07|clock-datagram", "time distribution datagram addresses register {:#x} with {} bytes", dg.ado(), dg.len);
+
+                    let reference = net.devices.iter().find(|d| d.spec.dc != crate::simnet::DcKind::None).map(|d| d.station_addr());
+
+                    ensure!(Some(dg.adp()) == reference, "C07|clock-datagram", "time distribution datagram goes to {:#06x}, the reference clock is {reference:x?}", dg.adp());
+
+                    clock_answer = Some(u64::from_le_bytes(r.datagrams[di].data[..8].try_into().unwrap()));
+                }
+                wire::FPRD => {
+                    ensure!(dg.ado() == 0x0130 && dg.len == 2, "C07|unexpected-datagram", "frame {fi}: FPRD of register {:#x} ({} bytes) inside a cycle", dg.ado(), dg.len);
+                }
+                other => fail!("C07|unexpected-datagram", "frame {fi}: command {other:#x} inside a process data cycle"),
+            }
+        }
+    }
+
+    ensure!(
+        next_addr == total as u64,
+        "C07|tiling",
+        "the process data datagrams of the cycle cover {next_addr} bytes, the image has {total} (frame size {frame}, {} frames)",
+        obs.tx.len()
+    );
+
+    ensure!(
+        clock_seen == usize::from(with_clock),
+        "C07|clock-datagram-count",
+        "{clock_seen} time distribution datagram(s) in the cycle, expected {}",
+        usize::from(with_clock)
+    );
+
+    if with_clock {
+        ensure!(time == clock_answer, "C07|reported-time", "the reference clock answered {clock_answer:?}, the cycle reports {time:?}");
+    }
+
+    // ---- the results ----------------------------------------------------------------------
+    ensure!(u32::from(wkc) == lrw_wkc_sum, "C07|working-counter", "the process data datagrams came back with working counters summing to {lrw_wkc_sum}, the cycle reports {wkc}");
+
+    let want_wkc: u32 = case.devices.iter().map(|d| u32::from(d.0 > 0) + 2 * u32::from(d.1 > 0)).sum();
+
+    ensure!(lrw_wkc_sum == want_wkc || obs.tx.len() > 1, "harness|wkc-model", "single frame cycle: devices should produce working counter {want_wkc}, simulator produced {lrw_wkc_sum}");
+
+    ensure!(states.len() == n, "C07|state-list-length", "{} states reported for {n} devices (frame size {frame}, {} frames)", states.len(), obs.tx.len());
+
+    for i in 0..n {
+        let served = &net.devices[i].stats.al_served[obs.served_before[i]..obs.served_after[i]];
+
+        ensure!(served.len() == 1, "C07|status-not-read-once", "device {i}: AL status read {} times in one cycle", served.len());
+        ensure!(states[i] == served[0] & 0x0f, "C07|state-list-differs", "subdevice_states[{i}] = {:#x}, the device reported {:#x}", states[i], served[0]);
+    }
+
+    // inputs: what the network returned for the first in_total bytes
+    let got_inputs: Vec<u8> = obs.inputs_after.iter().flatten().copied().collect();
+
+    ensure!(got_inputs.len() == in_total, "harness|window-lengths", "input windows hold {} bytes, the devices have {in_total}", got_inputs.len());
+    ensure!(
+        got_inputs[..] == returned[..in_total],
+        "C07|inputs-differ",
+        "the network returned {} for the input part of the image, the local image holds {} (frame size {frame}, {} frames)",
+        hex(&returned[..in_total]),
+        hex(&got_inputs),
+        obs.tx.len()
+    );
+
+    let mut mem_inputs = Vec::new();
+
+    for (i, _) in case.devices.iter().enumerate() {
+        for (_, start, len, w) in net.devices[i].expected_pd_sms() {
+            if !w {
+                mem_inputs.extend_from_slice(&net.devices[i].mem[usize::from(start)..usize::from(start) + usize::from(len)]);
+            }
+        }
+    }
+
+    ensure!(got_inputs == mem_inputs, "C07|inputs-differ", "the devices' input memory holds {}, the local image holds {}", hex(&mem_inputs), hex(&got_inputs));
+
+    // outputs: byte for byte what the application wrote, locally and in the devices
+    for (i, d) in case.devices.iter().enumerate() {
+        let pat = out_pattern(case.seed, i, usize::from(d.1));
+
+        ensure!(obs.outputs_after[i] == pat, "C07|outputs-changed", "device {i}: the application wrote {}, after the cycle the output part of the image holds {}", hex(&pat), hex(&obs.outputs_after[i]));
+
+        let mut mem = Vec::new();
+
+        for (_, start, len, w) in net.devices[i].expected_pd_sms() {
+            if w {
+                mem.extend_from_slice(&net.devices[i].mem[usize::from(start)..usize::from(start) + usize::from(len)]);
+            }
+        }
+
+        ensure!(mem == pat, "C07|outputs-not-delivered", "device {i}: the application wrote {}, the device's output memory holds {} (frame size {frame}, {} frames)", hex(&pat), hex(&mem), obs.tx.len());
+    }
+
+    // ---- frame count: never more than the straightforward packer needs ---------------------
+    let mut ref_frames = 0usize;
+    let mut left = total;
+    let mut checks = n;
+    let mut clock = with_clock;
+
+    loop {
+        let mut room = cap;
+        let mut used_any = false;
+
+        if clock {
+            room -= 20;
+            clock = false;
+            used_any = true;
+        }
+
+        if left > 0 && room >= 13 {
+            let take = left.min(room - 12);
+
+            left -= take;
+            room -= 12 + take;
+            used_any = true;
+        }
+
+        while checks > 0 && room >= 14 {
+            checks -= 1;
+            room -= 14;
+            used_any = true;
+        }
+
+        if !used_any {
+            break;
+        }
+
+        ref_frames += 1;
+
+        if left == 0 && checks == 0 {
+            break;
+        }
+    }
+
+    info.count("frames", obs.tx.len() as u64);
+
+    ensure!(
+        obs.tx.len() <= ref_frames,
+        "C07|too-many-frames",
+        "the cycle used {} frames; packing the image first and the state checks behind it needs {ref_frames} (image {total} bytes, {n} devices, frame size {frame}, clock datagram {with_clock})",
+        obs.tx.len()
+    );
+
+    if obs.tx.len() >= 2 {
+        info.label("several-frames");
+    }
+
+    if near_boundary {
+        info.label("chunk-ends-near-frame-end");
+    }
+
+    info.nontrivial = obs.tx.len() >= 2 || near_boundary;
+
+    Ok(())
+}
